@@ -5,3 +5,6 @@ claim('C10',
 claim('C04',
       "Translation validation of the real compiler against itself: for each program of a rewrite-biased list and each of the 11 rewrite switches (plus all-off) whose disabling changes the emitted bytecode, the optimised and the de-optimised bytecode are executed symbolically on the real VM over an enumerated input-shape universe with symbolic leaves, and z3 shows the output/error sequences equal on every path (or yields an input, replayed natively with -tags verif). Bounded by the program list, the input shapes, 8 outputs and the fuel; complete over leaf values within the stated ranges.",
       "DESIGN.md §4 C04", category='translation_validation')
+claim('C02',
+      "For every listed path expression (overlapping, ancestor/descendant, slice-in-slice, generators, optional, conditional) with symbolic indices, every listed body and every input shape of the universe, z3 shows on every path that the real in-place update machinery (`|=`, `=`, `op=`) returns exactly what the defining reduction over path(P) with plain getpath/setpath/delpaths returns, that `del(P)` deletes every path against the original value (Go reference), that the input is left unchanged and that the result is acyclic. Bounded symbolic execution: complete over leaf and index values inside the stated ranges, enumerated over the stated program and shape lists.",
+      "DESIGN.md §4 C02")
